@@ -66,14 +66,14 @@ func PrepareC11(ctx *Ctx) (*Prepared, error) {
 
 func PrepareC16(ctx *Ctx) (*Prepared, error) {
 	p := prepareTextShards(ctx, "C16", textCases, nil, textBudget(ctx))
-	p.Bounds = map[string]interface{}{"cases": "the 130 schema ASTs of C11 restricted to texts ReadFile accepts, in the same layouts", "compared": "every File field except comments and comment-derived tags"}
+	p.Bounds = map[string]interface{}{"cases": "the 143 schema ASTs of C11 restricted to texts ReadFile accepts, in the same layouts", "compared": "every File field except comments and comment-derived tags"}
 	p.Explanation = "bounded symbolic execution of bebop.Format followed by bebop.ReadFile on its output; the two Files must be equal up to comments"
 	return p, nil
 }
 
 func PrepareC17(ctx *Ctx) (*Prepared, error) {
 	p := prepareTextShards(ctx, "C17", textCases, nil, textBudget(ctx))
-	p.Bounds = map[string]interface{}{"cases": "the 130 schema ASTs of C11 restricted to texts ReadFile accepts and Format processes without error"}
+	p.Bounds = map[string]interface{}{"cases": "the 143 schema ASTs of C11 restricted to texts ReadFile accepts and Format processes without error"}
 	p.Explanation = "bounded symbolic execution of bebop.Format applied twice; the two outputs are compared byte for byte (symbolic bytes included)"
 	return p, nil
 }
@@ -142,7 +142,12 @@ func PrepareC13(ctx *Ctx) (*Prepared, error) {
 	for w := 0; w < 8; w++ {
 		funcs = append(funcs, fmt.Sprintf("VH_C13R_%02d", w))
 	}
-	funcs = append(funcs, "VH_C13P_00", "VH_C13C_00", "VH_C13G_00", "VH_C13G_01")
+	funcs = append(funcs, "VH_C13P_00", "VH_C13C_00", "VH_C13G_OK")
+	for v := 0; v < 3; v++ {
+		for _, f := range "abcm" {
+			funcs = append(funcs, fmt.Sprintf("VH_C13G_%d%c", v, f))
+		}
+	}
 	p := prepareTextFuncs(ctx, "C13", funcs, "c13")
 	p.Bounds = map[string]interface{}{
 		"error_classes": "duplicate names (struct/message fields, enum options, definitions of every pair of kinds, inline union branch vs top level, consts) with the two names symbolic; duplicate enum values (unsigned and signed), message and union indices, opcodes over every pair of record kinds, message index zero, with the numbers symbolic; undefined type reference at 7 kinds of site with the referenced name symbolic; definitions named like each of the 14 primitives; enum literals (3-5 symbolic digits, positive and negative) against each base type's range plus the 64-bit boundaries; const literals of the wrong kind; struct containment over 3 structs with two symbolic field types each (every graph) plus a message that breaks recursion",
